@@ -58,10 +58,16 @@ HAND = [
      "Lower": {"type": "string", "pattern": "^[a-z]+$"},
      "Digits3": {"type": "string", "pattern": "^[0-9]{3}$", "minLength": 3},
      "AZ": {"type": "string", "pattern": "^a.*z$", "maxLength": 4},
-     "Hex": {"type": "string", "pattern": "^[a-f0-9]{2,8}$", "minLength": 2, "maxLength": 8}}),
+     "Hex": {"type": "string", "pattern": "^[a-f0-9]{2,8}$", "minLength": 2, "maxLength": 8},
+     "Line": {"type": "string", "pattern": "^.*$"}, "Line2": {"type": "string", "pattern": "^(.*)$", "maxLength": 10},
+     "NoSpace": {"type": "string", "pattern": "^\\S+$"}, "NoSlash": {"type": "string", "pattern": "^[^/]+$"}}),
   {"Lower": [("valid", "abc"), ("pattern", "abC"), ("pattern", "abé"), ("pattern", ""), ("pattern", "a b")],
    "Digits3": [("valid", "007"), ("pattern", "0070"), ("pattern", "00"), ("pattern", "0é7")],
    "AZ": [("valid", "aéz"), ("valid", "aééz"), ("length", "aéééz"), ("pattern", "aééy")],
+   "Line": [("valid", ""), ("valid", "one line"), ("pattern", "a\nb"), ("pattern", "a\r"), ("pattern", "\u2028")],
+   "Line2": [("valid", "é"), ("pattern", "a\nb"), ("length", "12345678901")],
+   "NoSpace": [("valid", "aé-1"), ("pattern", "a b"), ("pattern", "a\u00a0b"), ("pattern", "")],
+   "NoSlash": [("valid", "a b"), ("pattern", "a/b"), ("pattern", "")],
    "#": [("pattern", {"p": "x", "q": ["123", "12a"]})]}),
  ("strenums", dict(_obj({"e": _ref("E1"), "f": _ref("E2")}, ["e"], True), title="StrEnums", definitions={
      "E1": {"type": "string", "enum": ["é", "a", "abc"], "maxLength": 1},
